@@ -600,7 +600,7 @@ func (fx *FuncCtx) checkLoad(st *State, sv SliceV, idx Term, node ast.Node) {
 		return
 	}
 	fx.curNode = node
-	fams := fx.entryReadFamilies()
+	fams := sameRegionFams(fx.entryReadFamilies(), sv.Rid)
 	addr := Add(sv.Off, idx)
 	goal := fx.memberGoal(st, fams, sv.Rid, addr, []Term{idx})
 	if goal.S != "true" {
@@ -611,13 +611,29 @@ func (fx *FuncCtx) checkLoad(st *State, sv SliceV, idx Term, node ast.Node) {
 	fx.oblige(st, "rframe", goal, node, "")
 }
 
+// sameRegionFams keeps the families declared on the region that is accessed when
+// the region is syntactically one of the declared ones (a sufficient condition
+// with far fewer alternatives); otherwise all families are candidates.
+func sameRegionFams(fams []famInst, rid Term) []famInst {
+	var out []famInst
+	for _, f := range fams {
+		if f.sl.Rid.S == rid.S {
+			out = append(out, f)
+		}
+	}
+	if len(out) == 0 {
+		return fams
+	}
+	return out
+}
+
 // checkCallReadFrame: the callee's read (and write) family lies inside our reads ∪ writes.
 func (fx *FuncCtx) checkCallReadFrame(st *State, f famInst, node ast.Node, what string) {
 	if !fx.readsChecked() || isAllocTerm(f.sl.Rid) {
 		return
 	}
 	fx.curNode = node
-	fams := fx.entryReadFamilies()
+	fams := sameRegionFams(fx.entryReadFamilies(), f.sl.Rid)
 	s2 := st.clone()
 	if f.whole {
 		k := fx.freshConst("k_rw", SInt)
